@@ -85,8 +85,11 @@ impl MergedServerSelection {
     pub fn reachable_variables(&self) -> BTreeSet<VariableNameWrapper> {
         match self {
             MergedServerSelection::ScalarField(field) => get_variables(&field.arguments).collect(),
-            MergedServerSelection::ClientObjectSelectable(field)
-            | MergedServerSelection::LinkedField(field) => get_variables(&field.arguments)
+            // A client pointer is not part of the operation in which it is selected (the
+            // selections below it are fetched by the pointer's own refetch query), so the
+            // variables it uses are not variables of that operation.
+            MergedServerSelection::ClientObjectSelectable(_) => BTreeSet::new(),
+            MergedServerSelection::LinkedField(field) => get_variables(&field.arguments)
                 .chain(
                     field
                         .selection_map
